@@ -251,6 +251,15 @@ def _run_session(data, case, faults, src_fault):
                     hist.got.append(chunk)
                     hist.ended = 'eof'
                     break
+            elif case.get('forloop'):
+                # a for statement left after one chunk and entered again
+                ended = True
+                for chunk in w:
+                    ended = False
+                    break
+                if ended:
+                    hist.ended = 'stop'
+                    break
             else:
                 try:
                     chunk = next(w)
@@ -549,6 +558,7 @@ class C06(Check):
                 'debuglog': crng.random() < 0.3, 'read0': pers == 'file',
                 'drain': crng.choice((0, 0, 1, 3)),
                 'readinto': crng.random() < 0.5,
+                'forloop': pers == 'iter' and crng.random() < 0.25,
                 'chunk_kind': core.weighted(crng, [(None, 6), ('bytearray', 1),
                                                    ('memoryview', 1)]),
                 'no_close': crng.random() < 0.1,
@@ -685,6 +695,7 @@ class C06(Check):
                 case.get('drain'), bool(case.get('readinto')),
                 bool(case.get('presession')), case.get('chunk_kind'),
                 bool(case.get('no_close')), case.get('final_read'),
+                bool(case.get('forloop')),
                 len(hist.got), src.reads,
                 None if hist.surfaced is None else
                 (hist.surfaced[0], type(hist.surfaced[1]).__name__),
@@ -740,7 +751,7 @@ class C06(Check):
             c['drain'] = 0
             yield c
         for key in ('presession', 'readinto', 'chunk_kind', 'no_close',
-                    'final_read'):
+                    'final_read', 'forloop'):
             if case.get(key):
                 c = copy.deepcopy(case)
                 c[key] = None
